@@ -88,6 +88,26 @@ impl Report {
         }
     }
 
+    /// Like `violation`, but the (expensive) description is only built when it will be kept.
+    pub fn violation_with(&mut self, key: &str, size: u64, build: impl FnOnce() -> (String, Value)) {
+        self.violation_count += 1;
+        match self.violations.get_mut(key) {
+            Some(v) => {
+                v.count += 1;
+                if size < v.size {
+                    let (what, replay) = build();
+                    v.size = size;
+                    v.what = what;
+                    v.replay = replay;
+                }
+            }
+            None => {
+                let (what, replay) = build();
+                self.violations.insert(key.to_string(), Violation { key: key.to_string(), what, replay, size, count: 1 });
+            }
+        }
+    }
+
     pub fn cap(&mut self, what: impl Into<String>) {
         self.not_exhaustive = true;
         self.caps.push(what.into());
